@@ -60,8 +60,17 @@ func errName(err error) string {
 var lineRe = regexp.MustCompile(`:\d+`)
 
 func c07(r *R, concurrent bool) {
-	w := newWorld(r, WorldOpt{NoStart: true})
-	tree := r.Choose(3) // 0 empty, 1 small tree, 2 tree with scheduled jobs and a slow actor
+	// 1 run in 12 (sequential only): Start fails (a remoting address without a port); everything afterwards must still be prompt
+	failStart := !concurrent && r.Chance(8)
+	opt := WorldOpt{NoStart: true}
+	if failStart {
+		opt.SysOpts = []vivid.ActorSystemOption{vivid.WithActorSystemRemoting("127.0.0.1")}
+		r.Count("start-fails")
+	}
+	w := newWorld(r, opt)
+	// 0 empty, 1 small tree, 2 tree with scheduled jobs, 3 an actor whose OnKill handler outlasts the Stop timeout (the first
+	// Stop legitimately gives up; later calls must still return at once), 4 an actor that calls Stop itself while it is stopped
+	tree := r.Choose(5)
 	nOps := 1 + r.Choose(4)
 	var ops []int
 	for i := 0; i < nOps; i++ {
@@ -76,10 +85,10 @@ func c07(r *R, concurrent bool) {
 	for _, o := range ops {
 		names = append(names, opNames[o])
 	}
-	r.Sample(map[string]any{"ops": names, "tree": []string{"empty", "small", "jobs+slow"}[tree], "stop_timeout": stopTimeout.String(), "concurrent": concurrent})
+	r.Sample(map[string]any{"ops": names, "tree": []string{"empty", "small", "jobs+slow", "outlasts-stop-timeout", "re-entrant-stop"}[tree], "stop_timeout": stopTimeout.String(), "concurrent": concurrent})
 
 	var mu sync.Mutex
-	var results []c07Result
+	var results, inner []c07Result
 	started := false // model: a Start returned nil
 	populated := false
 	firstStopStep, spawnDoneStep := -1, -1
@@ -90,6 +99,20 @@ func c07(r *R, concurrent bool) {
 		populated = true
 		slowKill := func(ctx vivid.ActorContext, p *Probe) { vsimrt.Sleep(20 * time.Millisecond) } // keeps the ancestors in the killing state for a while
 		spec := &Spec{Name: "p", Children: []*Spec{{Name: "c0", OnKill: slowKill}, {Name: "c1", Children: []*Spec{{Name: "g", OnKill: slowKill}}}}}
+		if tree == 3 {
+			spec.Children[0].OnKill = func(ctx vivid.ActorContext, p *Probe) { vsimrt.Sleep(stopTimeout + 3*time.Second) }
+		}
+		if tree == 4 {
+			spec.Children[0].OnKill = func(ctx vivid.ActorContext, p *Probe) {
+				t0 := time.Now()
+				err := w.Sys.Stop(stopTimeout)
+				vsimrt.Yield()
+				mu.Lock()
+				inner = append(inner, c07Result{op: opStop, err: err, took: time.Since(t0), timeout: stopTimeout})
+				mu.Unlock()
+				r.Count("stop-called-from-an-actor-being-stopped")
+			}
+		}
 		if tree == 2 {
 			spec.Children[0].OnLaunch = func(ctx vivid.ActorContext, p *Probe) {
 				_ = ctx.Scheduler().Loop(ctx.Ref(), 200*time.Millisecond, w.NewCmd("loop", 0, nil))
@@ -154,6 +177,18 @@ func c07(r *R, concurrent bool) {
 		mu.Unlock()
 	}
 
+	// "any further Start or Stop call returns promptly with the already-started / already-stopped / not-started error
+	// instead of blocking": such a call takes no simulated time (the clock only advances while every goroutine is blocked)
+	prompt := func(what string, res c07Result) bool {
+		switch errName(res.err) {
+		case "already-started", "already-stopped", "not-started":
+			if res.took > time.Millisecond {
+				r.Fail("C07/state-error-not-prompt op="+opNames[res.op]+" got="+errName(res.err), "%s: %s returned %q only after %v: it blocked instead of returning at once (tree %d, stop timeout %v)", what, opNames[res.op], errName(res.err), res.took, tree, stopTimeout)
+				return false
+			}
+		}
+		return true
+	}
 	if !concurrent {
 		// reference model of the documented state machine
 		state := "ready"
@@ -165,6 +200,9 @@ func c07(r *R, concurrent bool) {
 			}
 			res := results[len(results)-1]
 			got := errName(res.err)
+			if !prompt(fmt.Sprintf("sequence %v call #%d", names, i), res) {
+				return
+			}
 			var want []string
 			switch op {
 			case opStart:
@@ -174,6 +212,9 @@ func c07(r *R, concurrent bool) {
 						want = []string{"nil", "start-failed"} // starting on an already cancelled context: either is acceptable
 					} else {
 						want = []string{"nil"}
+					}
+					if failStart {
+						want = []string{"start-failed"}
 					}
 				case "started":
 					want = []string{"already-started"}
@@ -198,6 +239,9 @@ func c07(r *R, concurrent bool) {
 					want = []string{"not-started"}
 				case "started":
 					want = []string{"nil"}
+					if tree == 3 && populated {
+						want = []string{"stop-failed"} // the slow actor outlasts the timeout
+					}
 					state = "stopped"
 				case "stopped":
 					want = []string{"already-stopped"}
@@ -257,6 +301,9 @@ func c07(r *R, concurrent bool) {
 			if res.op == opSpawn {
 				continue
 			}
+			if !prompt("concurrent callers", res) {
+				return
+			}
 			if strings.HasPrefix(n, "other") {
 				r.Fail("C07/undocumented-error", "call %d %s returned %v", i, opNames[res.op], res.err)
 				return
@@ -303,7 +350,20 @@ func c07(r *R, concurrent bool) {
 		}
 	}
 	mu.Unlock()
-	if anyStopFailed {
+	mu.Lock()
+	for _, res := range inner {
+		if errName(res.err) != "already-stopped" {
+			mu.Unlock()
+			r.Fail("C07/wrong-result op=Stop state=stopping got="+errName(res.err), "Stop called by an actor from its OnKill handler while the system was being stopped returned %q after %v, documented: already-stopped", errName(res.err), res.took)
+			return
+		}
+		if !prompt("Stop called by an actor that is being stopped", res) {
+			mu.Unlock()
+			return
+		}
+	}
+	mu.Unlock()
+	if anyStopFailed && !(tree == 3 && populated) {
 		// no actor of these trees takes longer than a few tens of simulated milliseconds to stop
 		r.Fail("C07/stop-timed-out", "Stop(%v) gave up with 'stop failed' although no actor blocks: the tree never finished terminating; live goroutines: %s", stopTimeout, describeLive(r.Sim.Live()))
 		w.DumpNotes(300)
